@@ -105,7 +105,7 @@ C14_SPEC = dict(
          "ID/AC/NA/DE, P0 symbols a permutation of all / all+wildcard / a subset, DNA and protein, integer and "
          "decimal/exponent/nan/inf/huge counts, LF or CRLF, optional VV header, with or without the final newline) by "
          "the canonical printer (= Coq print_file, compared byte for byte; per record the lines in random order with "
-         "XX lines, BA/BS/BF/CO lines and reference blocks sprinkled in, a random blank/tab column separator, P0/PO, optional consensus column "
+         "XX lines, BA/BS/BF/CO lines, CC runs, DT lines and reference blocks sprinkled in, a random blank/tab column separator, P0/PO, optional consensus column "
          "or trailing blanks) or by a layout-varied printer (field order, "
          "XX lines, blanks/tabs, PO/P0, label styles, consensus column, references, unobserved BF/BA/BS/CC/CO/DT lines), "
          "plus the bundled tests/*.transfac and benches/prodoric.transfac (353 records); each file read through "
@@ -119,8 +119,8 @@ C14_SPEC = dict(
     assumptions=[
         "TRANSFAC: reader_roundtrip (all record lists meeting the boolean wf_file, all chunkings) is proved for the "
         "files written by TransfacPrint.print_file: optional VV header; every record a list of lines IN ANY ORDER and "
-        "number -- AC/ID/NA/DE lines (a repeated line: the last wins), BA/BS/BF/CO lines with any one-line text, XX "
-        "lines, reference blocks (RN [n] with optional '; xref.', then any RX PUBMED / RA / RT / RL lines: number, "
+        "number -- AC/ID/NA/DE lines (a repeated line: the last wins), BA/BS/BF/CO lines with any one-line text, runs "
+        "of CC lines, DT lines (dd.mm.yyyy (created|updated); author.), XX lines, reference blocks (RN [n] with optional '; xref.', then any RX PUBMED / RA / RT / RL lines: number, "
         "cross reference and the last pmid / title / link of the block are returned, blocks in file order), matrix "
         "blocks (header P0 or PO, symbols in any order / any subset without repetition, any non-empty "
         "blank/tab string per block before every symbol and count, one row per position, any one-line UTF-8 text "
@@ -129,7 +129,8 @@ C14_SPEC = dict(
         "(digits, fraction, exponent, sign, nan, inf), row labels = anything nom's u32 accepts, AC/ID/NA/DE values = "
         "any one-line valid UTF-8 text that trim() leaves unchanged (written after two blanks). Not in the theorem, "
         "covered by the correspondence check (model = implementation, implementation = written records) only: "
-        "CC and DT lines, separators varying inside one matrix block, other blanks after the line code",
+        "separators varying inside one matrix block, other blanks after the line code, RX lines not of the form "
+        "'RX  PUBMED: id.'",
         "TRANSFAC: the theorems speak of count *tokens* (the matrix cell holds the token written under that symbol); "
         "the token -> f32 conversion is outside the theorem: Dec2F32.f32_of_token (exact, Flocq) is compared bit for "
         "bit with the cell the implementation produced (Rust str::parse::<f32> via nom) on every evaluated token",
